@@ -72,9 +72,9 @@ def IN_APP_EXCLUDE():
     user_defined = os.getenv('DEEP_IN_APP_EXCLUDE', None)
     if user_defined is None:
         user_defined = []
+    elif ',' in user_defined:
+        user_defined = user_defined.split(',')
     else:
-        if ',' in user_defined:
-            user_defined = user_defined.split(',')
         user_defined = [user_defined]
 
     prefix = sys.exec_prefix
